@@ -62,11 +62,15 @@ Qed.
    Adj-RIB-In, whatever was there before *)
 Definition has_key (r : rib) (k : key) : bool := existsb (fun e => key_eqb (fst e) k) r.
 
+Lemma leqb_refl x : leqb x x = true.
+Proof. unfold leqb. destruct (list_eq_dec N.eq_dec x x); congruence. Qed.
+Lemma fcomp_eqb_refl c : fcomp_eqb c c = true.
+Proof. destruct c; cbn; rewrite ?N.eqb_refl, ?leqb_refl; reflexivity. Qed.
+Lemma combine_self_forallb (l : list fcomp) : forallb (fun p => fcomp_eqb (fst p) (snd p)) (combine l l) = true.
+Proof. induction l as [|x l IH]; [reflexivity|]. cbn. rewrite fcomp_eqb_refl, IH. reflexivity. Qed.
 Lemma nlri_eqb_refl x : nlri_eqb x x = true.
 Proof.
-  destruct x; cbn; rewrite ?N.eqb_refl;
-    repeat match goal with |- context [list_eq_dec N.eq_dec ?a ?a] => destruct (list_eq_dec N.eq_dec a a); [|congruence] end;
-    reflexivity.
+  destruct x; cbn; rewrite ?N.eqb_refl, ?leqb_refl, ?PeanoNat.Nat.eqb_refl, ?combine_self_forallb; reflexivity.
 Qed.
 Lemma key_eqb_refl k : key_eqb k k = true.
 Proof. destruct k as [[f p] x]. cbn. rewrite !N.eqb_refl, nlri_eqb_refl. reflexivity. Qed.
